@@ -48,7 +48,7 @@ def knobs(r, i):
 
 def run(v, tier, seed, replay):
     cases, impl, model = seqcheck.run(v, tier, seed, replay, "C07", ["C07"], tree_oracles=["no_panic"], wild_oracles=["no_panic"], extra_cases=extra, knobs=knobs, wild_knobs=knobs,
-                                      n_quick=(200, 900), n_thorough=(20000, 90000),
+                                      n_quick=(600, 2700), n_thorough=(20000, 90000),
                                       nontrivial=lambda lines, tr: True,
                                       assumptions=["blocking inside the allocator, the OS or parking_lot is outside the model; every call is run under an 8 s deadline",
                                                    "precondition of C07: guards are released in reverse order of creation on their own thread (enforced by the guard stack of the harness)"])
